@@ -622,6 +622,10 @@ func (pc *parentController) syncParentObject(parent *unstructured.Unstructured) 
 		pc.enqueueParentObjectAfter(parent, time.Duration(syncResult.ResyncAfterSeconds*float64(time.Second)))
 	}
 
+	// The status below is computed from the parent as it was sent to the hook;
+	// removing the finalizer may hand back a newer version of the parent.
+	observedParent := parent
+
 	// If all revisions agree that they've finished finalizing,
 	// remove our finalizer.
 	if syncResult.Finalized {
@@ -679,7 +683,7 @@ func (pc *parentController) syncParentObject(parent *unstructured.Unstructured) 
 
 	// Update parent status.
 	// We'll want to make sure this happens after manageChildren once we support observedGeneration.
-	if _, err := pc.updateParentStatus(parent, syncResult.Status); err != nil {
+	if _, err := pc.updateParentStatus(observedParent, syncResult.Status); err != nil {
 		if apierrors.IsNotFound(err) {
 			// Swallow the error since there's no point retrying if the parent is gone.
 			pc.logger.V(4).Info("Parent object has been deleted", "parent_kind", pc.parentResource.Kind, "object", klog.KRef(parent.GetNamespace(), parent.GetName()))
